@@ -8,11 +8,15 @@ its ``__bool__`` calls ``run.branch``; the engine decides with the solver which
 sides are feasible under the current path condition, follows one and schedules the
 other.  The harness is re-executed once per path with the recorded decision prefix.
 """
+import os
+import sys
 import time
 import itertools
 from fractions import Fraction
 
 import z3
+
+TRACE = bool(os.environ.get("PYSX_TRACE"))
 
 
 class PathEnd(BaseException):
@@ -195,6 +199,8 @@ class Run:
             r = s.check()
             m = s.model() if r == z3.sat else None
         self.stats.solver_s += time.time() - t0
+        if TRACE:
+            sys.stderr.write("[feas %s %.2fs depth=%d] %s\n" % (r, time.time() - t0, len(self.decisions), str(extra)[:150]))
         if r == z3.sat:
             return "sat", m
         if r == z3.unsat:
@@ -347,7 +353,7 @@ class Run:
             return "unsat", None
         return "unknown", None
 
-    def prove(self, name, claim, info=None, exclude=(), logic=None, rlimit=None, hints=()):
+    def prove(self, name, claim, info=None, exclude=(), logic=None, rlimit=None, hints=(), soft=False):
         """Obligation: under the path condition, claim holds for all values.
         exclude: list of (finding_id, z3 predicate over the inputs) - known findings; counterexamples
         are searched first inside each excluded region (reported with their id) and then outside all."""
@@ -366,7 +372,10 @@ class Run:
             regions.append((fid, [p]))
         verdict = "unsat"
         for fid, reg in regions:
+            t0 = time.time()
             r, m = self.check_sat(extra + reg, logic=logic, rlimit=rlimit)
+            if TRACE:
+                sys.stderr.write("[prove %s %s %.2fs]\n" % (name, r, time.time() - t0))
             if r == "unsat":
                 self.stats.ob_unsat += 1
                 d["unsat"] += 1
@@ -386,7 +395,7 @@ class Run:
                         x = model_value(m, v)
                         vals[k] = x if isinstance(x, (int, bool)) else str(x)
                     self.stats.cex.append({"obligation": name, "finding": fid, "inputs": vals,
-                                           "info": info, "case": self.ex.case_label,
+                                           "info": info, "case": self.ex.case_label, "soft": soft,
                                            "notes": dict(self.notes),
                                            "decisions": list(self.decisions)})
             else:
